@@ -22,6 +22,14 @@ Template members: a third family (lib_c06tmpl.py) puts one member (data member, 
               instantiates it through a global typedef and checks everything printed for the
               INSTANTIATED member, plus the template as re-printed by parse_file.
 
+Template arguments: context `targ` (lib_c06targ.py) uses as base type template-ids whose
+              arguments are composite: function types and function pointers over template-ids,
+              arrays, cv/pointer/reference types, nested template-ids, and non-type arguments
+              such as -1, (2 > 1), (1, 2), ternaries, sizeof(template-id), enum and qualified
+              constants, template-id::value, at positions 1-2 of Box Fn Pair Arr Num Two and of
+              the alias templates AB AA, nested to depth 2; family `aliaspair` puts a template-id
+              and the same instantiation written through an alias template into one TU.
+
 Acceptance:   parse_file exits 0 and reports no error on every generated translation unit
               (errors are attributed to single declarations and confirmed in isolation), and
               on every file of parser-inc/ that g++ accepts stand-alone.
@@ -46,6 +54,7 @@ from vf import build, tools
 from vf import lib_c06 as L
 from vf import lib_c06lookup as K
 from vf import lib_c06tmpl as T
+from vf import lib_c06targ as TA
 from vf.core import Check, HarnessError, pmap, run_main
 
 PID = "C06"
@@ -78,13 +87,17 @@ CONTEXTS = {
         "struct S": ("struct S", "::S"), "enum E": ("enum E", "::E"),
         "struct N::T": ("struct N::T", "::N::T"), "struct N::T::In": ("struct N::T::In", "::N::T::In")}),
 }
+# template-ARGUMENT family: the base type of the declaration is a template-id with composite
+# arguments (lib_c06targ.py); spelled the same in the header and in the checker
+CONTEXTS["targ"] = dict(scope=[], wrap=("", ""),
+                        bases={t: (t, t) for t in TA.template_ids("thorough")})
 CTX_ORDER = list(CONTEXTS)
 
 PRELUDE = L.PRELUDE + """\
 namespace M { using N::T; }
 namespace NA = N;
 template<class X = N::T, int n = 2> struct W { X w[n]; };
-"""
+""" + TA.PRELUDE
 CLASS_OPEN = "struct Sh { struct T { int sh; }; struct In { int shi; };"
 CLASS_CLOSE = "};"
 
@@ -161,6 +174,9 @@ def enumerate_cases(tier):
     for ctx in CTX_ORDER:
         bases = CONTEXTS[ctx]["bases"]
         d = d_main if ctx == "global" else d_ctx
+        if ctx == "targ":
+            bases = TA.template_ids(tier)
+            d = 0 if tier == "quick" else 1
         for base in bases:
             for t in L.terms(base, d):
                 for role in ROLES:
@@ -238,10 +254,14 @@ def run_parse(b, d, cases):
                 break              # later errors may be consequences of the first one
         if not bad:
             if len(remaining) == 1:
-                bad[remaining[0]] = "rc=%s %s" % (r.rc, r.err.strip()[-200:])
+                m = re.search(r"error: (.*)", r.err)
+                bad[remaining[0]] = m.group(1) if m else "rc=%s %s" % (r.rc, r.err.strip()[-200:])
             else:
-                raise HarnessError("parse_file fails (rc=%s) but no declaration can be blamed:\n%s"
-                                   % (r.rc, r.err[-1500:]))
+                # a diagnostic without a line number: isolate by halves
+                mid = len(remaining) // 2
+                ra, oa = run_parse(b, d, remaining[:mid])
+                rb, ob = run_parse(b, d, remaining[mid:])
+                return ra + rb, oa + ob
         for c, msg in bad.items():
             c.accept = msg
         remaining = [c for c in remaining if c not in bad]
@@ -1322,6 +1342,65 @@ def tmembers(ck, b):
                            "explained_by_symbol_findings": explained}
 
 
+# ------------------------------------------------------------------------- alias pairs
+ALIAS_PAIRS = [("Arr<%s>", "AA<%s>", "int, 3"), ("Arr<%s>", "AA<%s>", "int, te1"),
+               ("Arr<%s>", "AA<%s>", "Box<int>, (2 > 1)"), ("Box<%s>", "AB<%s>", "int"),
+               ("Box<%s>", "AB<%s>", "Arr<int, 3>")]
+
+
+def aliaspair_cases():
+    out = []
+    for direct, alias, args in ALIAS_PAIRS:
+        for order in ("direct-first", "alias-first"):
+            out.append((direct % args, alias % args, order))
+    return out
+
+
+def aliaspair_run(ck, b, case):
+    """A template-id written directly and through an alias template, both as typedefs in one
+    TU.  Returns the observation ('' = accepted and both printed types right)."""
+    direct, alias, order = case
+    d = ck.scratch("aliaspair")
+    decls = ["typedef %s ta0;" % direct, "typedef %s ta1;" % alias]
+    if order == "alias-first":
+        decls.reverse()
+    _w(os.path.join(d, "h.h"), "struct S { int m; };\n" + TA.PRELUDE + "\n".join(decls) + "\n")
+    g = tools.run(GXX + ["-fsyntax-only", "-x", "c++", "h.h"], cwd=d, timeout=60)
+    if g.rc != 0:
+        raise HarnessError("g++ rejects an alias pair: " + g.err[-500:])
+    r = tools.parse_file(b, ["h.h"], cwd=d, timeout=60)
+    errs = re.findall(r"error: (.*)", r.err)
+    if r.rc != 0 or errs:
+        return "rejected: " + re.sub(r"(struct|class) \w+<.*?> (has|\{)", r"\1 T \2",
+                                     errs[0] if errs else "rc=%s" % r.rc)[:90]
+    src = ['#include "h.h"', "#include <type_traits>"]
+    bad = []
+    for n in ("ta0", "ta1"):
+        m = re.search(r"^typedef (.*) %s;$" % n, r.out, re.M)
+        if not m:
+            bad.append("%s missing from parse_file's output" % n)
+            continue
+        src.append("static_assert(std::is_same< %s, %s >::value, \"%s\");" % (n, m.group(1), n))
+    _w(os.path.join(d, "chk.cpp"), "\n".join(src) + "\n")
+    g = tools.run(GXX + ["-fsyntax-only", "chk.cpp"], cwd=d, timeout=60)
+    if g.rc != 0:
+        m = re.search(r"error: (.*)", g.err)
+        bad.append("printed typedef wrong: " + (m.group(1) if m else "?")[:80])
+    return " ;; ".join(bad)
+
+
+def aliaspairs(ck, b):
+    for case in aliaspair_cases():
+        key = "aliaspair/%s+%s/%s" % case
+        obs = aliaspair_run(ck, b, case)
+        ck.note(key, nontrivial=True, outcome="aliaspair " + ("ok" if not obs else "DEVIATES"),
+                family="aliaspair", sample={"direct": case[0], "alias": case[1], "order": case[2],
+                                            "observed": obs})
+        if obs:
+            ck.fail(key, obs, {"observed": obs, "case": list(case)},
+                    confirm=lambda case=case, obs=obs: aliaspair_run(ck, b, case) == obs)
+
+
 # ------------------------------------------------------------------------- findings
 BUILTIN = {"int", "ulong", "char", "bool", "double"}
 
@@ -1338,6 +1417,27 @@ def paren_declarator(c):
 
 def outer_core(c):
     return L.strip_cv(c.term)[0]
+
+
+COMMA_ARGS = ("(1, 2)", "::value, 2)")
+
+
+def targ_symptoms(c, text, verdict):
+    """Template-argument cases: recognise the two listed wrong renderings by their exact
+    textual signature in the printed text (which g++ then rejects)."""
+    if not verdict.startswith("invalid") or not text:
+        return []
+    base = L.base_of(c.term)
+    flat = text.replace(" ", "")
+    items = []
+    if any(a in base for a in COMMA_ARGS):
+        if "1,2" in flat and "(1,2)" not in flat or "::value,2" in flat and "::value,2)" not in flat:
+            items.append(("symbol:template-argument/comma-expression",
+                          "comma expression printed without its parentheses"))
+    if ">::value" in base and "Num::value" in flat:
+        items.append(("symbol:template-argument/member-of-template-id",
+                      "template arguments of the qualifying template-id dropped"))
+    return items
 
 
 def symbol_keys(c):
@@ -1396,8 +1496,15 @@ def main():
         lookups(ck, b)
     if not ck.only or "tmember" in ck.only:
         tmembers(ck, b)
+    if not ck.only or "aliaspair" in ck.only:
+        aliaspairs(ck, b)
     cases = enumerate_cases(ck.tier) if (not ck.only or "grammar" in ck.only) else []
-    tus = [cases[i:i + PER_TU] for i in range(0, len(cases), PER_TU)]
+    # a template-id written through the alias template AA and the same instantiation written
+    # directly clash in one TU (see the aliaspair family): keep them in separate TUs
+    plain = [c for c in cases if "AA<" not in L.base_of(c.term)]
+    alias = [c for c in cases if "AA<" in L.base_of(c.term)]
+    tus = [plain[i:i + PER_TU] for i in range(0, len(plain), PER_TU)] + \
+          [alias[i:i + PER_TU] for i in range(0, len(alias), PER_TU)]
     counter = itertools.count()
     dev_counts = {}
     filtered = {}
@@ -1448,7 +1555,8 @@ def main():
                 outcome += " probes=%s" % "".join(sorted({p.chan[0] + p.chan[1:2] for p in ps}))
                 if bad:
                     outcome += " DEVIATES"
-                ck.note(c.key, nontrivial=len(mods) >= 1 and len(ps) >= 1, outcome=outcome,
+                ck.note(c.key, nontrivial=(len(mods) >= 1 or c.ctx == "targ") and len(ps) >= 1,
+                        outcome=outcome,
                         family=c.ctx + "/" + c.role,
                         sample={"declaration": c.line_text(), "accepted": c.accept is None,
                                 "printed": [(p.chan, p.text, p.verdict) for p in ps]})
@@ -1467,6 +1575,8 @@ def main():
                     if v.startswith("alt:"):
                         for nm in v[4:].split("+"):
                             items.append(("deviation:" + nm, nm))
+                    elif c.ctx == "targ" and targ_symptoms(c, tx, v):
+                        items += targ_symptoms(c, tx, v)
                     else:
                         items.append((None, "%s %s" % (ch, v)))
                 resolved = []
@@ -1506,7 +1616,7 @@ def main():
     return ck.finish(
         rule="one case = one declaration (context, role, type term) parsed by parse_file and "
              "interrogate, or one parser-inc file; non-trivial = the type has at least one modifier "
-             "and at least one printed text of it was compared by g++ (corpus files: g++ accepted "
+             "(or is a template-id with composite arguments) and at least one printed text of it was compared by g++ (corpus files: g++ accepted "
              "the file stand-alone)",
         exhaustive=True,
         bound="modifier depth<=%d (global context), <=%d (other contexts); %d contexts x 4 roles"
@@ -1529,6 +1639,14 @@ def replay(ck, b):
         print("parse_file rc=%s\n%s" % (r.rc, r.err[-1500:]))
         ck.cleanup()
         return 1 if (r.rc != 0 or "error:" in r.err) else 0
+    if k.startswith("aliaspair/"):
+        for case in aliaspair_cases():
+            if "aliaspair/%s+%s/%s" % case == k:
+                obs = aliaspair_run(ck, b, case)
+                print(case, "->", obs or "accepted, printed types right")
+                ck.cleanup()
+                return 1 if obs else 0
+        raise HarnessError("unknown alias pair " + k)
     if k.startswith("tmember/"):
         c = T.case_from_key(k)
         cs, probes, filt = tmember_tu(b, ck.scratch("replay"), [c])
